@@ -42,6 +42,25 @@ func VerifC06ListWatch() {
 	for _, kv := range l.Kvs {
 		snap[vNameIndex(kv.Key)] = vSnapEntry{true, kv.Value, kv.Revision}
 	}
+	if zzverif.Param("newleader", 0) == 1 && zzverif.Choose("newLeader", 2) == 1 {
+		// one more write lands on the old leader, then the client's watch goes to a node that has
+		// just taken over (empty event cache): the watch is refused (the client lists again) or it
+		// delivers that write too
+		w.step()
+		w.newLeader()
+		ch, err := w.b.Watch(vCtx(), "/r/", r+1)
+		if err != nil {
+			zzverif.Cover("new-leader-refuses-watch")
+			return
+		}
+		w.step()
+		zzverif.WaitIdle()
+		evs, closed := vDrainEvents(ch)
+		zzverif.Assert(!closed, "watch stays open")
+		w.checkEvents(evs, 0, r+1, "/r/")
+		zzverif.Cover("new-leader-serves-watch")
+		return
+	}
 	ch, err := w.b.Watch(vCtx(), "/r/", r+1)
 	zzverif.Assert(err == nil, "watch from the list revision + 1 is accepted")
 	n := zzverif.Param("later", 2)
